@@ -985,7 +985,11 @@ package mqtt
 // verif:func mqtt.Hooks.OnRetainPublished trusted pure
 // retained messages for a new subscription: none for shared subscriptions, none for Retain Handling 2, none for Retain Handling 1
 // when the subscription already existed; otherwise every message Messages() returns for the filter, with the retain flag kept
-// verif:func mqtt.Server.publishRetainedToClient modifies=all
+// (the frame is trusted -- noframe: the deliveries go through publishToClient, whose own contract gives no frame; what a delivery
+// touches is the subscriber's in-flight table, quotas, packet-id cursor, alias table and pending-writes queue, the $SYS in-flight
+// and dropped counters, and the hook event trace; nothing is written to the connection here)
+// verif:func mqtt.Server.publishRetainedToClient noframe
+//@ modifies entries(cl.State.Inflight.internal), cl.State.Inflight.sendQuota, cl.State.packetID, entries(cl.State.TopicAliases.Outbound.internal), cl.State.TopicAliases.Outbound.cursor, cl.State.outbound.qlen, cl.State.outbound.qitem, cl.State.outbound.qcur, all(system.Info.Inflight), all(system.Info.InflightDropped), all(system.Info.MessagesDropped), nev, evkind, evcl, evid, lastNow, s.Topics.Retained.ggot, allentries("string", "int")
 //@ requires validClOut(cl) && validSrv(s) && s.Options.Capabilities.MaximumQos <= 2 && sub.Qos <= 2 && !has(ifl(cl), 0) && cl.Properties.ProtocolVersion <= 5 && s.Log != nil
 //@ requires s.Topics != nil && trieInv(s.Topics) && retInv(s.Topics) && retStoreInv(s.Topics)
 //@ requires len(sub.Filter) > 0 ==> nlevels(sub.Filter) >= 1 && nlevels(sub.Filter) <= 1099511627776 && hashLast(sub.Filter)
